@@ -28,8 +28,7 @@ META = {
             "table search. obs-fold is 'joined' by HttpHeader::parse in the sense that the continuation lines become part "
             "of one field value with the line ends kept as written (the replacing of folds by SP is done earlier by "
             "Http::One::Parser's unfolding pass, outside the anchors). Trimming removes all isspace() bytes (SP HT LF VT "
-            "FF CR), a superset of OWS. Joined Transfer-Encoding values longer than the 64K String limit (Must() in "
-            "strListAdd throws) are outside the model and not generated.",
+            "FF CR), a superset of OWS.",
     "technique": "Coq proof (refinement of the one-pass accumulator loop to a lines/groups/fields pipeline by two nested "
                  "inductions; storable-entry invariant for the pack/parse round trip) + regenerated header and character "
                  "tables + extracted-model differential correspondence + independent Python oracle",
@@ -510,7 +509,7 @@ def run(res, tier):
                 "rules. ep: single field-lines straight into HttpHeaderEntry::parse. A few names/values at the 65534 "
                 "limit +-1. Non-trivial: an accepted block with at least one stored field")
     res.trusted.append("owners modelled: hoRequest, hoReply; header lookup modelled as case-insensitive search of the "
-                       "regenerated table; joined Transfer-Encoding longer than 64K (Must() throws) not generated")
+                       "regenerated table")
     std.run_standard(res, PID, tier, area="hdrparse", build_impl=impl, gen_cases=gen_cases, oracle=oracle,
                      corr_name="HdrparseModel vs src/HttpHeader.cc (HttpHeader::parse, HttpHeaderEntry::parse, packInto), "
                                "src/http/RegisteredHeaders.cc",
